@@ -193,7 +193,7 @@ SMOKE = [  # (spec, file text, topology, nb_cores): one case per mechanism, exec
     ('flat', None, 4, -1), ('hwloc', None, 4, -1), ('display:hwloc', None, 4, -1), ('display:hwloc', None, 6, -1), ('hwloc', None, 6, 2), ('hwloc', None, 4, 3),
     ('file:@F', ':2:0,1\n', 4, -1), ('file:@F', ':3:0xf\n', 1, -1), ('file:@F', ':2:0x3\n', 1, -1), ('file:@F', ':3:1,3\n', 1, -1), ('file:@F', ':3:1,3\n', 6, -1),
     ('file:@F', ':2:1;3;2\n', 6, -1), ('file:@F', '1:1:0\n', 4, -1), ('file:@F', '0:1:0\n', 4, -1), ('file:@F', ':1:0', 4, -1), ('file:@F', ':1\n', 4, -1),
-    ('file:@F', ':1:0\n:2:0,1\n', 6, -1), ('file:@F', '0:1:0\n1:4:0\n:2:0,1\n', 6, -1), ('file:@F', ':2:0x100000000\n', 1, -1), ('file:@F', ':2:9\n', 4, -1),
+    ('file:@F', ':2:0x100000000\n', 1, -1), ('file:@F', ':2:9\n', 4, -1),
     ('file:@F', 'garbage\n', 4, -1), ('file:@F', '', 4, -1), ('rr:2:2:2', None, 4, -1), ('rr:0:1:2', None, 4, -1), ('rr:', None, 4, -1), ('rr:2:2', None, 4, -1),
     ('bogus', None, 4, -1), ('file:/nonexistent/vpmap', None, 4, -1), ('@null', None, 1, -1),
 ]
